@@ -74,9 +74,43 @@ static void run_case(int id, const struct xcase* c) {
 #endif
 }
 
+#ifdef P_SEQ
+/* C14: a CBOR sequence x||y||x is split by the documented loop (offset += read) into exactly those items */
+static void run_seq(int id, const struct xcase* a, const struct xcase* b) {
+  vf_case = id;
+  unsigned char Da[MAX_SK + 1], Db[MAX_SK + 1], Dc[MAX_SK + 1];
+  for (size_t i = 0; i < MAX_SK; i++) {
+    if (i < a->n) { Da[i] = a->sk[i] < 0 ? in_u8() : (unsigned char)a->sk[i]; Dc[i] = a->sk[i] < 0 ? in_u8() : (unsigned char)a->sk[i]; }
+    if (i < b->n) Db[i] = b->sk[i] < 0 ? in_u8() : (unsigned char)b->sk[i];
+  }
+  size_t len = 2 * a->n + b->n;
+  unsigned char* buf = vf_block(len);
+  for (size_t i = 0; i < MAX_SK; i++) { if (i < a->n) { buf[i] = Da[i]; buf[a->n + b->n + i] = Dc[i]; } if (i < b->n) buf[a->n + i] = Db[i]; }
+  size_t off = 0;
+  for (int k = 0; k < 3; k++) {
+    const struct xcase* c = k == 1 ? b : a; const unsigned char* D = k == 0 ? Da : k == 1 ? Db : Dc;
+    struct cbor_load_result res;
+    VF_ASSERT(off < len, "items remain while the buffer is not exhausted");
+    cbor_item_t* it = cbor_load(buf + off, len - off, &res);
+    VF_ASSERT(it != NULL && res.error.code == CBOR_ERR_NONE, "each item of a sequence decodes");
+    __CPROVER_assume(it != NULL);
+    VF_ASSERT(res.read == c->n, "bytes read = that item's length");
+    size_t ix = 0; tree_check(it, c->xn, &ix, D, 1);
+    cbor_decref(&it);
+    off += res.read;
+  }
+  VF_ASSERT(off == len, "the sequence is split into exactly its items, finishing at the end of the buffer");
+  free(buf);
+}
+#endif
+
 void harness(void) {
   a_install();
+#ifdef P_SEQ
+  FOR_EACH_PAIR(run_seq)
+#else
   FOR_EACH_CASE(run_case)
+#endif
   VF_ASSERT(a_live == 0, "no allocation outlives the run");
   VF_WITNESS();
 }
